@@ -6,10 +6,13 @@ Pipeline (DESIGN.md §5 C06, design.d/C06.md):
      ExtraLaw) and the examples of the GraphQL specification text (ASSUMEs in GQLCoerce.tla).
   2. The same run enumerates the cases (Gen_Coerce: variable type x default mode x value from the menus x
      shape of the "variables" member, two-variable operations) with the verdict the specification prescribes.
-  3. harness/cmd/vars replays every case into the real code, three observers per case:
+  3. harness/cmd/vars replays every case into the real code, five observers per case:
        engine  ExecutionEngine.Execute against a recording subgraph (accepted <=> no error and request sent)
        val     VariablesValidator.ValidateWithRemap after the engine's normalization steps
        valq    the same with DisableExposingVariablesContent
+       vall / vallq  the same two, but ONE long-lived validator instance each validates the whole sequence of cases in a
+               seed-shuffled order (history independence: the acceptor has no state, so these lines are judged by the
+               same invariants as those of a fresh validator)
   4. TLC validates the observations (Trace_Coerce): the case is echoed in every line, the verdict is
      recomputed by the specification:  accepted <=> AcceptVars (both directions), a rejection names an
      offending variable and position, no sentinel of a variable value is echoed when exposure is disabled.
@@ -25,7 +28,7 @@ from concurrent.futures import ThreadPoolExecutor
 import lib
 
 TRACE_FIELDS = ("id", "case", "who", "acc", "expose", "nq", "q", "leak")
-WHOS = ("engine", "val", "valq")
+WHOS = ("engine", "val", "valq", "vall", "vallq")
 
 
 def case_id(case):
@@ -295,7 +298,8 @@ def run(ctx):
         "rule": "one case = (operation with 1-2 variable definitions incl. default mode and argument position, abstract JSON "
                 "value per variable from the menus, shape of the variables member); distinct by hash of the case; "
                 "non-trivial = the specification rejects it or a list/object value is involved; each case is observed "
-                "three times (engine, validator, validator without content exposure) and every observation is one "
+                "five times (engine; fresh validator with / without content exposure; one long-lived validator instance "
+                "with / without content exposure over the whole seed-shuffled sequence) and every observation is one "
                 "line validated by TLC against Trace_Coerce",
         "observations_disagreeing_with_spec": nflag,
         "spec_accepts": sum(1 for c in chosen if c["expected"]["accept"]),
